@@ -8,6 +8,8 @@ modes:  unparse   -- every module is replaced by ast.unparse(ast.parse(src))
                      (parameters, attributes, globals and names used in
                      nested functions are left alone)
         rename-some[-<seed>] -- a random half of them
+        if-invert -- every plain if/else has its test negated and its
+                     branches swapped
 """
 import ast
 import importlib
@@ -68,6 +70,30 @@ class Renamer(ast.NodeTransformer):
         return node
 
 
+class IfInverter(ast.NodeTransformer):
+    """if c: A else: B  ->  if not c: B else: A   (plain if/else only)"""
+
+    def visit_If(self, node):
+        self.generic_visit(node)
+        if node.orelse and not (len(node.orelse) == 1 and
+                                isinstance(node.orelse[0], ast.If)):
+            t = node.test
+            if isinstance(t, ast.UnaryOp) and isinstance(t.op, ast.Not):
+                nt = t.operand
+            elif isinstance(t, ast.Compare) and len(t.ops) == 1 and \
+                    type(t.ops[0]) in (ast.Is, ast.IsNot, ast.Eq, ast.NotEq,
+                                       ast.In, ast.NotIn):
+                flip = {ast.Is: ast.IsNot, ast.IsNot: ast.Is, ast.Eq: ast.NotEq,
+                        ast.NotEq: ast.Eq, ast.In: ast.NotIn,
+                        ast.NotIn: ast.In}[type(t.ops[0])]
+                nt = ast.Compare(t.left, [flip()], t.comparators)
+            else:
+                nt = ast.UnaryOp(ast.Not(), t)
+            node.test = nt
+            node.body, node.orelse = node.orelse, node.body
+        return node
+
+
 def rewrite(mode, tmp):
     root = os.path.join(tmp, "src", "chameleon")
     for dp, dn, fns in os.walk(root):
@@ -79,6 +105,8 @@ def rewrite(mode, tmp):
             tree = ast.parse(src)
             if mode == "rename":
                 tree = Renamer().visit(tree)
+            elif mode == "if-invert":
+                tree = ast.fix_missing_locations(IfInverter().visit(tree))
             elif mode.startswith("rename-some"):
                 import random
                 r = Renamer()
